@@ -107,7 +107,8 @@ FIDELITY = dict(sub="fidelity", mode="fidelity", family="fidelity", shards=q(4, 
 
 
 def c07(prop, tier, res, replay=None):
-    return pure.check_cases(prop, tier, res, [FIDELITY, LIMITS, DRUN, OPFRONT], [
+    return pure.check_cases(prop, tier, res, [FIDELITY, LIMITS, DRUN, OPFRONT, CONCX], [
+        "hostile environment (concx): an upload over a real TCP connection that announces N bytes (or opens a chunked body) and closes after a part - nothing of it may be stored; a fan-out refused part-way followed by other traffic - the copy stored for the earlier target keeps the bytes sent for it (compared when first seen and at the end)",
         "push fidelity through the real PushDispatcher (micro-batches, concurrency 1-4): every send recorded by the scripted deliverer must carry exactly the headers and the payload the message was stored with",
         "payload identity through the store is exercised, not proved: the SQLite BLOB / JSON string-map round trip is the storage engine's (trusted base); what is proved is the base64 round trip for every byte string and the header copy rules",
         "requests are handed to the real ingress handler as http.Request values: net/http's own wire parsing of headers (canonicalisation, token validation) is trusted; header names are HTTP tokens, values arbitrary UTF-8",
@@ -185,7 +186,8 @@ CRASH = dict(sub="crash", mode="crash", family="crash", shards=q(6, 16),
 
 
 def c01(prop, tier, res, replay=None):
-    return pure.check_cases(prop, tier, res, [CRASH], [
+    return pure.check_cases(prop, tier, res, [CRASH, CONCX], [
+        "hostile environment (concx foreign-lock, SQLite): another process holds the write lock of the database file (BEGIN IMMEDIATE through a second handle; the store's busy_timeout lowered to 30 ms by a hook) while ingress fan-out requests arrive on the autocommit and on the BEGIN IMMEDIATE enqueue path: every acknowledged request must stand for one stored message per target when the file is read through a fresh handle",
         "PROVED (Lean, every well-formed history and every crash point): with the handler programs of the model (one committed insert per target then the 202; one transaction for a publish batch then the 200; one transaction per ack/nack/dead-letter then the 204) and recovery = committed transactions, the reopened store satisfies the property predicate crashCheck. The program shapes are tied to the code by facts REGENERATED from the Go source each run (enqueue loop leaves on error, only 202 after the loop, EnqueueBatch failure leaves before the response, WAL + synchronous=FULL, commitTx checked in every transactional function)",
         "EXERCISED on the real code: a child process serves seeded scripts of ingress fan-out / publish / dequeue / ack / nack / dead-letter requests through the real handlers on the real SQLite store (even seeds: autocommit insert path; odd seeds: the store run() wires from the compiled configuration) and is SIGKILLed at every verifhook point (begin / before commit / after commit / around the autocommit insert / between per-target enqueues / before the 202 / before the publish 200), at arbitrary instants by the parent (WAL checkpoint loop at 3 ms), and with one Store.Enqueue call refused; the parent reopens the database with the real store, runs integrity_check, dequeues everything that is due and evaluates crashCheck; it also checks that the content equals the model's recovery at some crash point of the same script",
         "a process kill leaves the OS page cache intact: this shows atomicity and ordering of commits against process death, not fsync durability on power loss (SQLite's and the OS's, trusted); concurrent requests inside the child are not generated (the store serialises transactions on one connection); PostgreSQL and memory backends are out of scope of a restart on the same database"], replay)
